@@ -108,7 +108,8 @@ def _ds_spec(cfg, i, path):
 
 def _row_configs(tier):
     # written_n: the session also assigned n (pending, not flushed) - after reading it or blindly; the re-fetch happens with flushing disabled (collection loads, hooks)
-    return [dict(read_n=a, read_m=b, written_n=w) for a in (False, True) for b in (False, True) for w in (False, True)]
+    # written_vol: the session assigned the VOLATILE attribute (never protected against foreign changes, but its pending write must survive the refresh like any other)
+    return [dict(read_n=a, read_m=b, written_n=w, written_vol=v) for a in (False, True) for b in (False, True) for w in (False, True) for v in (False, True)]
 
 
 def _row_case(cfg, values):
@@ -131,9 +132,13 @@ def _row_case(cfg, values):
         if cfg['read_m']: o._rbits_ |= T._bits_except_volatile_[T.m]
         if cfg['written_n']:
             o._vals_[T.n] = 777; o._wbits_ |= T._bits_[T.n]; o._status_ = 'modified'
+        avdict = {T.n: new_n, T.m: new_m}
+        if cfg['written_vol']:
+            o._dbvals_[T.vol] = 5; o._vals_[T.vol] = 888; o._wbits_ |= T._bits_[T.vol]; o._status_ = 'modified'
+            avdict[T.vol] = 6                                           # the refreshed row carries another value for it
         st.update(o=o)
         try:
-            o._db_set_({T.n: new_n, T.m: new_m})
+            o._db_set_(avdict)
         finally:
             st['vals'] = dict(o._vals_); st['dbvals'] = dict(o._dbvals_)
         return 'refreshed'
@@ -152,6 +157,7 @@ def _row_spec(cfg, i, path):
                      L.Implies(L.And(cfg['read_m'], dm), L.Eq(term(V[T.m]), i['seen_m'])))
         return L.And(isinstance(path.value, core.UnrepeatableReadError), must_fail, kept)
     V, D = st['vals'], st['dbvals']
+    if cfg['written_vol'] and not (V[T.vol] == 888 and D[T.vol] == 6): return False          # the volatile attribute: database value refreshed, own pending write kept
     # no conflict: the database values are refreshed (the optimistic check of the pending UPDATE will use them), the session's own pending write stays
     return L.And(L.Not(must_fail), L.Eq(term(V[T.n]), 777 if cfg['written_n'] else i['reloaded_n']), L.Eq(term(V[T.m]), i['reloaded_m']),
                  L.Eq(term(D[T.n]), i['reloaded_n']), L.Eq(term(D[T.m]), i['reloaded_m']))
